@@ -12,6 +12,9 @@ import LLRP.Oracle.C20
 import LLRP.Oracle.C06
 import LLRP.Oracle.C05
 import LLRP.Oracle.C07
+import LLRP.Oracle.C03
+import LLRP.Oracle.C09
+import LLRP.Oracle.C08
 /-!
 `oracle`: line-protocol driver of the executable models (one request per line on stdin, one reply per line on
 stdout). Imports only `LLRP.Model.*`, `LLRP.Gen.*` and `LLRP.Oracle.*` (never Mathlib, never proofs) so that it
@@ -31,10 +34,12 @@ def handlers : List Handler := [
   handleC12,
   handleC13,
   handleC20,
-  handleC20,
   handleC06,
   handleC05,
-  handleC07
+  handleC07,
+  handleC03,
+  handleC09,
+  handleC08
 ]
 
 def handle (line : String) : String :=
